@@ -318,10 +318,10 @@ def sremChk (a d : Int) : Except Fault Int :=
 
 /-- `case QOperation::Remainder` + `operator%` with the guards of the code. -/
 def Num.remChk (l r : Num R) : Except Fault (Option (Num R)) :=
-  let d := r.intBits
+  let d := wrap r.intBits
   if d = 0 then .ok none
   else if d = W64 - 1 then .ok (some (.int 0))
-  else match sremChk (toInt l.intBits) (toInt d) with
+  else match sremChk (toInt (wrap l.intBits)) (toInt d) with
     | .ok q => .ok (some (.int (ofInt q)))
     | .error e => .error e
 
